@@ -18,6 +18,7 @@ import (
 	"slices"
 	"strings"
 	"sync"
+	"sync/atomic"
 	"time"
 
 	"github.com/rs/zerolog/log"
@@ -46,6 +47,9 @@ type ProjectRunner struct {
 	waitGroup         sync.WaitGroup
 	exitCode          int
 	exitCodeOnce      sync.Once
+	startingUp        atomic.Bool
+	startupDone       chan struct{}
+	startupOnce       sync.Once
 	projectState      *types.ProjectState
 	mainProcess       string
 	mainProcessArgs   []string
@@ -66,6 +70,8 @@ func (p *ProjectRunner) init() {
 }
 
 func (p *ProjectRunner) Run() error {
+	p.startingUp.Store(true)
+	defer p.startupOnce.Do(func() { close(p.startupDone) })
 	p.runProcMutex.Lock()
 	p.runningProcesses = make(map[string]*Process)
 	p.runProcMutex.Unlock()
@@ -101,6 +107,7 @@ func (p *ProjectRunner) Run() error {
 		verifYield("run.loop", newConf.ReplicaName)
 		p.runProcess(&newConf)
 	}
+	p.startupOnce.Do(func() { close(p.startupDone) })
 	p.waitGroup.Wait()
 	log.Info().Msg("Project completed")
 	if p.exitCode != 0 {
@@ -558,6 +565,11 @@ func (p *ProjectRunner) shutDownAndWait(shutdownOrder []*Process) {
 }
 
 func (p *ProjectRunner) ShutDownProject() error {
+	// a shutdown requested while Run() is still registering the processes must not miss
+	// the ones that are not registered yet: they would be launched after it returned
+	if p.startingUp.Load() {
+		<-p.startupDone
+	}
 	p.runProcMutex.Lock()
 	defer p.runProcMutex.Unlock()
 
@@ -934,6 +946,7 @@ func NewProjectRunner(opts *ProjectOpts) (*ProjectRunner, error) {
 		isTuiOn:           opts.isTuiOn,
 		isOrderedShutDown: opts.isOrderedShutDown,
 		disableDotenv:     opts.disableDotenv,
+		startupDone:       make(chan struct{}),
 		projectState: &types.ProjectState{
 			FileNames: opts.project.FileNames,
 			StartTime: time.Now(),
